@@ -62,7 +62,7 @@ def run(ctx):
         trace_events_checked=tstats["checked"], runner_lines_skipped=tstats["runner_skipped"],
         random_lines_nontrivial=tstats["nontrivial"],
         evaluations=rstats["runs"] + tstats["events"], distinct_nontrivial=tstats["nontrivial"],
-        rule="spec->code: every item sequence of the C13 region with <= %d items over the %d-item alphabet '%s' (x4 prefixes); "
+        rule="spec->code: every item sequence of the C13 region with <= %d items over the %d-item alphabet '%s', after each of 4 starts (no prefix or one of 3 `Name:` prefixes); "
              "code->spec: random lines, non-trivial = at least two markers open at once (nesting/overlap) and a multi-byte character" % (
                  maxlen, 24 if thorough else 15, alpha),
         exhaustive=True, nonvacuity=nonvac, samples=samples,
